@@ -27,6 +27,22 @@ mod c20;
 pub static TMO_SCALE: std::sync::atomic::AtomicU64 = std::sync::atomic::AtomicU64::new(1);
 pub fn tmo(ms: u64) -> std::time::Duration { std::time::Duration::from_millis(ms * TMO_SCALE.load(std::sync::atomic::Ordering::SeqCst)) }
 
+/// The case a driver is about to run, written to the file named by REPLAY_CASEFILE: when the code under test kills the
+/// process (a stack overflow cannot be caught), the check reads the file to learn which case it died on.
+pub fn note_case(driver: &str, input: Value) {
+    use std::io::{Seek, SeekFrom, Write};
+    static F: std::sync::OnceLock<Option<std::sync::Mutex<std::fs::File>>> = std::sync::OnceLock::new();
+    let f = F.get_or_init(|| std::env::var_os("REPLAY_CASEFILE").and_then(|p| std::fs::File::create(p).ok()).map(std::sync::Mutex::new));
+    if let Some(m) = f {
+        if let Ok(mut fh) = m.lock() {
+            let data = json!({"driver": driver, "input": input}).to_string();
+            let _ = fh.seek(SeekFrom::Start(0));
+            let _ = fh.write_all(data.as_bytes());
+            let _ = fh.set_len(data.len() as u64);
+        }
+    }
+}
+
 pub struct Outcome {
     pub fails: bool,
     pub observed: String,
